@@ -33,6 +33,21 @@ def desugar(loc, relfile, fn_paths, rules):
     records = []
     for fp in fn_paths:
         for it in loc["by_path"].get(fp, []):
+            if "D10" in rules:
+                # call through a function-pointer FIELD (Verus has no function-pointer types): the stub type of the
+                # field offers `call` with a deterministic uninterpreted result
+                for m in re.finditer(r"\(self\.([a-z_0-9]+)\)\(", src[it["start"]:it["end"]]):
+                    a, b = it["start"] + m.start(), it["start"] + m.end()
+                    new = "self." + m.group(1) + ".call("
+                    rewrites.append((a, b, new))
+                    records.append({"fn": fp, "rule": "D10 (self.F)(ARGS) [F a function-pointer field]  =>  self.F.call(ARGS)",
+                                    "original": src[a:b], "rewritten": new})
+                for m in re.finditer(r"\bfn\(&([A-Za-z_0-9]+)\) -> usize", src[it["start"]:it["end"]]):
+                    a, b = it["start"] + m.start(), it["start"] + m.end()
+                    new = "MappingFn<" + m.group(1) + ">"
+                    rewrites.append((a, b, new))
+                    records.append({"fn": fp, "rule": "D10 parameter type fn(&T) -> usize  =>  MappingFn<T> (stub type)",
+                                    "original": src[a:b], "rewritten": new})
             for v in it.get("vd", []):
                 if v["rule"] not in rules:
                     continue
